@@ -45,7 +45,9 @@ def gen_value(rng, depth):
     if depth <= 0 or r < 0.45:
         k = rng.choice(["none", "bool", "int", "float", "str", "uuid", "decimal", "reg"])
         if k == "reg":
-            cls = rng.choice(["Money", "TaxedMoney", "Tip", "Early", "EntityId", "Fraction", "Deque", "Point", "Level", "Name"])
+            cls = rng.choice(["Money", "TaxedMoney", "Tip", "Early", "EntityId", "Fraction", "Deque", "Point", "Level", "Name", "Proxy"])
+            if cls == "Proxy":
+                return ["reg", cls, [[rng.choice(STRINGS), rng.randint(-3, 3)] for _ in range(rng.randint(0, 3))]]
             if cls == "Point":
                 return ["reg", cls, rng.randint(-3, 3), rng.randint(-3, 3)]
             if cls == "Level":
@@ -111,6 +113,7 @@ def gen(rng, tier, ctx):
 
 def witnesses():
     return {
+        "registered-type-with-a-tag-that-cannot-be-imported": {"value": ["list", [["reg", "Proxy", [["a", 1]]]]], "redefine": False},
         "keyword-arguments-of-from-json-lost-in-lists": {
             "value": ["list", [["node", 7, "n", ["uuid", "0" * 32], [["node", 7, "m", ["none"], []]]]]], "redefine": False,
             "kwargs": {"unit": "m"}},
@@ -153,6 +156,9 @@ def materialise(v, jm, unit=None):
         if v[1] == "Deque":
             import collections
             return collections.deque(materialise(x, jm) for x in v[2])
+        if v[1] == "Proxy":
+            import types
+            return types.MappingProxyType(dict(map(tuple, v[2])))
         if v[1] == "Point":
             return jm.Point(v[2], v[3])
         if v[1] == "Level":
@@ -246,7 +252,7 @@ def check_tags(value, ser, path, problems, C):
             return
         for i, (v, s) in enumerate(zip(value, ser)):
             check_tags(v, s, f"{path}[{i}]", problems, C)
-    elif dataclasses.is_dataclass(value) or isinstance(value, (uuid.UUID, decimal.Decimal, fractions.Fraction, jm_Money(), collections.deque) + jm_builtin_derived()):
+    elif dataclasses.is_dataclass(value) or isinstance(value, (uuid.UUID, decimal.Decimal, fractions.Fraction, jm_Money(), collections.deque, __import__("types").MappingProxyType) + jm_builtin_derived()):
         C["tags_checked"] += 1
         want = type(value).__module__ + "." + type(value).__qualname__
         if not isinstance(ser, dict) or ser.get("__json_type__") != want:
